@@ -163,3 +163,16 @@ package internal
 // preserved by addListener, proved above - and the package's cool-down jitter being well-formed)
 //@   call monitor#0: assume c.watchers != nil && implies(inDom(c.watchers, wkey), c.watchers[wkey] != nil && c.watchers[wkey].values != nil) && mathx.UnstableOK(coolDownUnstable)
 //@   loop 0: invariant reg
+
+// watchStream: an error reported by the etcd watch is returned WRAPPED (%w), so that the caller's errors.Is(err,
+// rpctypes.ErrCompacted) still sees a compaction and reloads instead of re-watching forever from a compacted revision; every
+// batch of events goes to handleWatchEvents under this watch's key and context
+// (assumed at that call, stated: the watcher-table invariant handleWatchEvents requires - set up by setupWatch/addListener)
+//@ func (c *cluster) watchStream
+//@   property C13
+//@   flag private_channels nolock
+//@   call Errorf#*: assert litContains(arg_format, "%w")
+//@   call handleWatchEvents#0: assume implies(inDom(c.watchers, key), c.watchers[key] != nil && c.watchers[key].values != nil)
+//@   call handleWatchEvents#0: assert arg_key == key && arg_ctx == ctx
+//@   call setupWatch#0: assert arg_cli == cli && arg_key == key && arg_rev == rev
+//@   loop 0: invariant true
